@@ -7,7 +7,7 @@
    connection set, arithmetic scanner); table: Gen/NetTables.v (NodeScanner.SERVICES, LSS_RX_COBID)
    regenerated from /repo on every run. *)
 From Coq Require Import ZArith List Bool.
-From CV Require Import Base.Val Base.Tys Gen.NetTables Gen.Src Model.Net Model.RefNet Proofs.Net_proofs Proofs.Src_eq_net.
+From CV Require Import Base.Val Base.Tys Gen.NetTables Gen.SrcC10 Model.Net Model.RefNet Proofs.Net_proofs Proofs.Src_eq_net.
 Import ListNotations.
 Open Scope Z_scope.
 
@@ -164,7 +164,7 @@ Example C10_nv_frame :
 Proof. vm_compute. repeat split; reflexivity. Qed.
 
 (* Tie to the source text: NodeScanner.on_message_received as translated from the CURRENT source by
-   tools/py2coq.py (Gen/Src.v, regenerated on every run) is the model's scan_step. *)
+   tools/py2coq.py (Gen/SrcC10.v, regenerated on every run) is the model's scan_step. *)
 Theorem C10_source_scanner_is_model : forall found can_id,
   src_scanner_step SERVICES found can_id = scan_step found can_id.
 Proof. exact src_scanner_step_eq. Qed.
